@@ -72,6 +72,12 @@ Fixpoint bdict_set (d : list (list Z * dyn)) (k : list Z) (v : dyn) : list (list
   match d with [] => [(k, v)] | (k', v') :: t => if list_eqb k' k then (k', v) :: t else (k', v') :: bdict_set t k v end.
 
 (* ------------------------------------------------------------------ close / _connect *)
+Section WithPeer.
+Variable P : Type.
+Variable peer : P -> list Z -> P * list Z.
+Notation M := (M P).
+Notation send := (World.send peer).
+
 Definition client_close : M unit :=
   s <-- get_sock ;;
   match s with
@@ -93,7 +99,7 @@ Definition try_make (c : cfg) (j : Z) : M (Z + exn) :=
          o2 <-- pop ;;
          match o2 with
          | OFail e => log (EWrap sid (-1)) ;;; throw e
-         | _ => w <-- fresh_sid ;; log (EWrap sid w) ;;; ret (inl w)
+         | _ => w <-- fresh_wrapped sid ;; log (EWrap sid w) ;;; ret (inl w)
          end
        else ret (inl sid))
     ) Exception_ cleanup
@@ -145,47 +151,46 @@ Definition ensure_connected (c : cfg) : M Z :=
   end.
 
 (* a reader wrapped in `except MemcacheUnexpectedCloseError: self.close(); raise` *)
-Definition guarded_reader {A} (sid : Z) (r : list outcome -> rres A * list outcome * nat) : M A :=
+Definition guarded_reader {A} (sid : Z) (r : list choice -> list Z -> list Z -> rres A * rstate * nat) : M A :=
   mtry (run_reader sid r) MemcacheUnexpectedCloseError (fun e => client_close ;;; throw e).
+(* one request/reply exchange: `buf = b""` at the start, the buffer is dropped at the end *)
+Definition exchange {A} (m : M A) : M A := set_buf [] ;;; mfinally m discard.
 
 (* ------------------------------------------------------------------ _fetch_cmd *)
-Fixpoint script_bytes (sc : list outcome) : nat :=
-  match sc with [] => O | OData b :: t => (length b + script_bytes t)%nat | _ :: t => script_bytes t end.
-
-Definition extract_value (c : cfg) (sid : Z) (expect_cas : bool) (line buf : list Z) (remapped : list (list Z * dyn))
-  : M (dyn * dyn * list Z) :=
+Definition extract_value (c : cfg) (sid : Z) (expect_cas : bool) (line : list Z) (remapped : list (list Z * dyn))
+  : M (dyn * dyn) :=
   let parts := split_ws line in
   '(key, flags, size, cas) <-- lift (match parts, expect_cas with
       | [_; k; f; s; cs], true => Ok (k, f, s, cs)
       | [_; k; f; s], false => Ok (k, f, s, [])
       | _, _ => Raise ValueError end) ;;
   sz <-- lift (match int_of_text size with Some z => Ok z | None => Raise ValueError end) ;;
-  '(buf', value) <-- guarded_reader sid (fun sc => readvalue sc [] false (sz + 2) buf 0) ;;
+  value <-- guarded_reader sid (fun cs avail buf => readvalue cs avail [] false (sz + 2) buf 0) ;;
   okey <-- lift (match bdict_get remapped key with Some k => Ok k | None => Raise KeyError end) ;;
   fl <-- lift (match int_of_text flags with Some z => Ok z | None => Raise ValueError end) ;;
   v <-- lift (serde_deserialize c (DBytes value) fl) ;;
-  ret (okey, (if expect_cas then DTuple [v; DBytes cas] else v), buf').
+  ret (okey, (if expect_cas then DTuple [v; DBytes cas] else v)).
 
 Fixpoint fetch_loop (fuel : nat) (c : cfg) (sid : Z) (name : list Z) (expect_cas : bool)
-                    (remapped : list (list Z * dyn)) (buf : list Z) (result : list dyn) : M (list dyn) :=
+                    (remapped : list (list Z * dyn)) (result : list dyn) : M (list dyn) :=
   match fuel with
   | O => throw AssertionError                         (* unreachable: every iteration consumes input *)
   | S fuel' =>
-    '(buf1, line) <-- guarded_reader sid (fun sc => readline sc [] buf 0) ;;
+    line <-- guarded_reader sid (fun cs avail buf => readline cs avail [] buf 0) ;;
     lift (raise_errors line) ;;;
     if list_eqb line L_END || list_eqb line L_OK then ret result
     else if prefixb L_VALUE line then
-      '(k, v, buf2) <-- extract_value c sid expect_cas line buf1 remapped ;;
-      fetch_loop fuel' c sid name expect_cas remapped buf2 (dict_set result k v)
+      '(k, v) <-- extract_value c sid expect_cas line remapped ;;
+      fetch_loop fuel' c sid name expect_cas remapped (dict_set result k v)
     else if list_eqb name L_stats && prefixb L_STAT line then
       match split_ws line with
-      | _ :: k :: rest => fetch_loop fuel' c sid name expect_cas remapped buf1
+      | _ :: k :: rest => fetch_loop fuel' c sid name expect_cas remapped
                             (dict_set result (DBytes k) (DBytes (match rest with v :: _ => v | [] => [] end)))
       | _ => throw IndexError
       end
     else if list_eqb name L_stats && prefixb L_ITEM line then
       match split_ws line with
-      | _ :: k :: rest => fetch_loop fuel' c sid name expect_cas remapped buf1
+      | _ :: k :: rest => fetch_loop fuel' c sid name expect_cas remapped
                             (dict_set result (DBytes k) (DBytes (join_with L_sp rest)))
       | _ => throw IndexError
       end
@@ -200,12 +205,11 @@ Definition fetch_cmd (c : cfg) (name : list Z) (keys : list dyn) (expect_cas : b
   let remapped := fold_left (fun d kw => bdict_set d (fst kw) (snd kw)) (combine pks keys) [] in
   eb <-- lift (match expire with Some e => bind (check_integer c e) (fun b => Ok (L_sp ++ b)) | None => Ok [] end) ;;
   let cmd := name ++ eb ++ (match pks with [] => [] | _ => L_sp ++ join_with L_sp pks end) ++ L_crlf in
-  mtry (
+  exchange (mtry (
     sid <-- ensure_connected c ;;
-    call (ESend sid cmd) ;;;
-    sc <-- get_script ;;
-    fetch_loop (S (S (script_bytes sc))) c sid name expect_cas remapped [] []
-  ) (h_fetch c) (fun e => client_close ;;; if c_ignore_exc c && exn_isa e Exception_ then ret [] else throw e).
+    send sid cmd ;;;
+    fun w => fetch_loop (S (S (length (conn_get (w_conns w) sid)))) c sid name expect_cas remapped [] w
+  ) (h_fetch c) (fun e => client_close ;;; if c_ignore_exc c && exn_isa e Exception_ then ret [] else throw e)).
 
 (* ------------------------------------------------------------------ _store_cmd *)
 Definition data_bytes (c : cfg) (d : dyn) : exc (list Z) :=
@@ -239,36 +243,32 @@ Definition store_cmd (c : cfg) (name : list Z) (values : list (dyn * dyn)) (expi
         Ok (name ++ L_sp ++ key ++ L_sp ++ fb ++ L_sp ++ eb ++ L_sp ++ str_of_Z (zlen db) ++ extra ++ L_crlf ++ db ++ L_crlf ++ rest))))))
       end) values) ;;
   sid <-- ensure_connected c ;;
-  mtry (
-    call (ESend sid cmds) ;;;
+  exchange (mtry (
+    send sid cmds ;;;
     if noreply then ret (fold_left (fun d kv => dict_set d (fst kv) (DBool true)) values [])
     else
-      r <-- mfor values (fun kv st =>
-              let '(buf, results) := st in
-              '(buf', line) <-- guarded_reader sid (fun sc => readline sc [] buf 0) ;;
+      mfor values (fun kv results =>
+              line <-- guarded_reader sid (fun cs avail buf => readline cs avail [] buf 0) ;;
               lift (raise_errors line) ;;;
               v <-- lift (store_result name line) ;;
-              ret (buf', dict_set results (fst kv) v)) ([], []) ;;
-      ret (snd r)
-  ) (h_store c) (fun e => client_close ;;; throw e).
+              ret (dict_set results (fst kv) v)) []
+  ) (h_store c) (fun e => client_close ;;; throw e)).
 
 (* ------------------------------------------------------------------ _misc_cmd *)
 Definition misc_cmd (c : cfg) (cmds : list (list Z)) (noreply : bool) (end_tokens : list Z) : M (list (list Z)) :=
   sid <-- ensure_connected c ;;
-  mtry (
-    call (ESend sid (concat cmds)) ;;;
+  exchange (mtry (
+    send sid (concat cmds) ;;;
     if noreply then ret []
     else
-      r <-- mfor cmds (fun _ st =>
-              let '(buf, results) := st in
-              '(buf', line) <-- guarded_reader sid (fun sc =>
+      mfor cmds (fun _ results =>
+              line <-- guarded_reader sid (fun cs avail buf =>
                                   match end_tokens with
-                                  | [] => readline sc [] buf 0
-                                  | _ => readsegment sc end_tokens buf 0 end) ;;
+                                  | [] => readline cs avail [] buf 0
+                                  | _ => readsegment cs avail end_tokens buf 0 end) ;;
               lift (raise_errors line) ;;;
-              ret (buf', results ++ [line])) ([], []) ;;
-      ret (snd r)
-  ) (h_misc c) (fun e => client_close ;;; throw e).
+              ret (results ++ [line])) []
+  ) (h_misc c) (fun e => client_close ;;; throw e)).
 
 (* ------------------------------------------------------------------ public operations *)
 Inductive op :=
@@ -399,4 +399,11 @@ Fixpoint run_ops (c : cfg) (ops : list op) : M (list (exc dyn)) :=
       | (r, w') => match run_ops c t w' with (Ok rs, w'') => (Ok (r :: rs), w'') | (Raise e, w'') => (Raise e, w'') end
       end
   end.
-Definition init_world (sc : list outcome) : world := {| w_script := sc; w_trace := []; w_next := 0; w_sock := None |}.
+End WithPeer.
+
+Definition init_world {P} (p : P) (sc : list outcome) (cs : list choice) : world P :=
+  {| w_script := sc; w_choices := cs; w_peer := p; w_conns := []; w_buf := []; w_discarded := [];
+     w_trace := []; w_next := 0; w_sock := None |}.
+(* the scripted peer: the k-th sendall is answered by the k-th listed reply (none when exhausted) *)
+Definition scripted_peer (p : list (list Z)) (_ : list Z) : list (list Z) * list Z :=
+  match p with [] => ([], []) | r :: t => (t, r) end.
